@@ -34,6 +34,7 @@ def run(ck):
     semcheck.check_witnesses(ck, "C13")
     validcorpus.check(ck)
     semcheck.scope_leak_probes(ck, "C13")
+    semcheck.block_scope_matrix(ck, "C13")
     semcheck.shadow_probes(ck, "C13")
     semcheck.typed_parent_fault_probe(ck)
     semcheck.attribution_probes(ck)
